@@ -87,6 +87,19 @@ def cases(tier, seed):
             if k % 5 == 0 and base[0] >= 4:
                 case["unit"]["fault"] = [rng.randrange(2, base[0]), rng.choice(["silent", "err", "errsame"])]
             cs.append(case)
+    # two whole-bank reads of the SAME bank (two units on two buses) running interleaved, and a whole-bank read interleaved
+    # with single-value reads of that bank: the bank and value objects are shared by all units of a process
+    for label in sorted({lb for (lb, _) in memseq.VALUES}):
+        for k in range(2 if tier == "quick" else 12):
+            a = memseq.default_image(label, rng, "rand")
+            b = memseq.default_image(label, rng, "walk" if k % 2 else "rand")
+            names = [n for (lb, n) in memseq.VALUES if lb == label]
+            pair = [{"seq": "read_all", "latch": k % 2, "unit": memseq.unit("gear", label, a)},
+                    {"seq": "read_all", "latch": 1, "unit": memseq.unit("device" if k % 2 else "gear", label, b)}]
+            cs.append({"pair": pair})
+            if names:
+                cs.append({"pair": [{"seq": "read_all", "latch": 1, "unit": memseq.unit("gear", label, list(a))},
+                                    {"seq": "read", "value": rng.choice(names), "unit": memseq.unit("gear", label, list(b))}]})
     return cs
 
 
